@@ -326,6 +326,7 @@ class VC:
         self.tag = ""
         self.max_paths = 4000
         self.witness_terms = {}      # name -> z3 term evaluated in every counter-model (for replay on the real code)
+        self.probe = False           # template-discovery run of role-based loop contracts (nothing is recorded)
 
     # ---- symbols
     def fresh_int(self, name, lo=None, hi=None):
@@ -392,10 +393,14 @@ class VC:
 
     # ---- obligations
     def _record(self, name, status, detail=None, witness=None, secs=0.0, backend="z3"):
+        if self.probe:
+            return
         self.results.setdefault(name, []).append((status, detail, witness, secs, backend, self.tag))
 
     def check(self, name, cond, detail=None):
         """Obligation: path condition |= cond."""
+        if self.probe:
+            return True
         if hasattr(cond, "item") and getattr(cond, "shape", None) == ():
             cond = cond.item()
         if isinstance(cond, bool):
@@ -451,6 +456,16 @@ class VC:
         return self._model(m) if st == "sat" else None
 
     # ---- exploration
+    def discover(self, thunk):
+        """Template discovery for role-based loop contracts: one execution in which every cut loop runs its first
+        iteration from the entry state; nothing is recorded."""
+        self.probe = True
+        try:
+            self.explore(thunk, "probe")
+        finally:
+            self.probe = False
+            self.paths = 0
+
     def explore(self, thunk, tag=""):
         """Run thunk() once per feasible decision sequence."""
         self.todo = [[]]
@@ -778,6 +793,92 @@ class LoopSpec:
         self.invariant, self.modifies, self.havoc_locals, self.name = invariant, modifies, havoc_locals, name
 
 
+class RoleLoopSpec(LoopSpec):
+    """Loop contract over *roles*: the loop-carried state is identified by ghost tokens (object identity / value), not
+    by the names or the grouping of local variables, so renaming locals or carrying them in a tuple does not matter.
+
+    roles()            -> {role: current ghost token}                (ghost state after the last completed iteration)
+    fresh(i, n)        -> {role: token}   set the ghost state to "i iterations completed" with fresh tokens
+    entry(vals)        -> [(clause, cond)] conditions on the values found at the role positions at loop entry
+    clauses(i, n)      -> [(clause, cond)] ghost-only invariant clauses
+    value_roles        roles compared by value (z3 equality) instead of identity"""
+
+    def __init__(self, roles, fresh, entry, clauses, name="", value_roles=()):
+        LoopSpec.__init__(self, None, None, None, name)
+        self.roles, self.fresh, self.entry, self.clauses, self.value_roles = roles, fresh, entry, clauses, tuple(value_roles)
+        self.template = None
+
+
+def _tmpl_build(v, roles, vc, value_roles, changed):
+    for r, tok in roles.items():
+        if tok is v and r not in value_roles:
+            return ("role", r)
+    if changed and isinstance(v, (SymInt, int)) and not isinstance(v, bool):
+        for r in value_roles:
+            try:
+                st_, _m, _dt, _be = solve.prove(vc.pc, _z(v) == _z(roles[r]), 5000)
+            except Unmodelled:
+                continue
+            if st_ == "proved":
+                return ("role", r)
+    if isinstance(v, tuple):
+        sub = [_tmpl_build(x, roles, vc, value_roles, changed) for x in v]
+        return ("tuple", sub) if any(_tmpl_has_role(x) for x in sub) else ("other",)
+    if isinstance(v, list):
+        sub = [_tmpl_build(x, roles, vc, value_roles, changed) for x in v]
+        return ("list", sub) if any(_tmpl_has_role(x) for x in sub) else ("other",)
+    if isinstance(v, dict):
+        sub = {k: _tmpl_build(x, roles, vc, value_roles, True) for k, x in v.items()}
+        return ("dict", sub) if any(_tmpl_has_role(x) for x in sub.values()) else ("other",)
+    return ("other",)
+
+
+def _tmpl_has_role(t):
+    if t[0] == "role":
+        return True
+    if t[0] in ("tuple", "list"):
+        return any(_tmpl_has_role(x) for x in t[1])
+    if t[0] == "dict":
+        return any(_tmpl_has_role(x) for x in t[1].values())
+    return False
+
+
+def _tmpl_make(t, tokens, cur, why):
+    if t[0] == "role":
+        return tokens[t[1]]
+    if t[0] == "tuple":
+        return tuple(_tmpl_make(x, tokens, (cur[i] if isinstance(cur, tuple) and i < len(cur) else None), why) for i, x in enumerate(t[1]))
+    if t[0] == "list":
+        new = [_tmpl_make(x, tokens, (cur[i] if isinstance(cur, list) and i < len(cur) else None), why) for i, x in enumerate(t[1])]
+        if isinstance(cur, list):
+            cur[:] = new
+            return cur
+        return new
+    if t[0] == "dict":
+        tgt = cur if isinstance(cur, dict) else {}
+        for k, x in t[1].items():
+            tgt[k] = _tmpl_make(x, tokens, tgt.get(k), why)
+        return tgt
+    return cur if cur is not None else Opaque(why)
+
+
+def _tmpl_walk(t, v, path=""):
+    """Yield (role, value-or-MISSING, path) for every role position of template t inside value v."""
+    if t[0] == "role":
+        yield t[1], v, path
+    elif t[0] in ("tuple", "list"):
+        for i, x in enumerate(t[1]):
+            sub = v[i] if isinstance(v, (tuple, list)) and i < len(v) else _MISSING
+            yield from _tmpl_walk(x, sub, "%s[%d]" % (path, i))
+    elif t[0] == "dict":
+        for k, x in t[1].items():
+            sub = v.get(k, _MISSING) if isinstance(v, dict) else _MISSING
+            yield from _tmpl_walk(x, sub, "%s[%r]" % (path, k))
+
+
+_MISSING = object()
+
+
 class _LoopRT:
     """Runtime support object bound as __vc_loops in the sandbox."""
 
@@ -789,11 +890,33 @@ class _LoopRT:
         spec = self.specs[k]
         n = seq_length(it)
         self.state[k] = (it, n)
+        if isinstance(spec, RoleLoopSpec):
+            if self.vc.probe:
+                self.state[(k, "env0")] = {nm: id(v) for nm, v in env.items()}
+                return it
+            pre = "%s/loop%d(%s)/invariant-on-entry: " % (self.fname, k, spec.name)
+            vals, ok = {}, spec.template is not None
+            for nm, t in (spec.template or {}).items():
+                for r, v, path in _tmpl_walk(t, env.get(nm, _MISSING), nm):
+                    if v is _MISSING:
+                        ok = False
+                    else:
+                        vals[r] = v
+            self.vc.check(pre + "the loop-carried state is initialised before the loop", ok and set(vals) >= set(spec.roles().keys()) - set(getattr(spec, "optional_roles", ())),
+                          "template %s; found at entry %s" % (spec.template, sorted(vals)))
+            if ok:
+                for clause, cond in spec.entry(vals):
+                    self.vc.check(pre + clause, cond)
+                for clause, cond in spec.clauses(0, n):
+                    self.vc.check(pre + clause, cond)
+            return it
         for clause, cond in spec.invariant(env, 0, n):
             self.vc.check("%s/loop%d(%s)/invariant-on-entry: %s" % (self.fname, k, spec.name, clause), cond)
         return it
 
     def fork(self, k):
+        if self.vc.probe and isinstance(self.specs[k], RoleLoopSpec):
+            return True
         return self.vc.fork("loop%d" % k)
 
     def havoc(self, k, names, env, exiting):
@@ -801,6 +924,29 @@ class _LoopRT:
         spec = self.specs[k]
         it, n = self.state[k]
         vc = self.vc
+        if isinstance(spec, RoleLoopSpec):
+            why = "local havocked at loop %d of %s" % (k, self.fname)
+            if vc.probe:
+                self.state[(k, "i")] = 0
+                out = [env.get(nm, Opaque(why)) for nm in names]
+                return tuple(out) if len(out) != 1 else out[0]
+            if exiting:
+                i = n
+            else:
+                i = vc.fresh_int("i_loop%d" % k, 0)
+                vc.assume(i < n)
+            self.state[(k, "i")] = i
+            tokens = spec.fresh(i, n)
+            out = []
+            for nm in names:
+                t = (spec.template or {}).get(nm)
+                out.append(_tmpl_make(t, tokens, env.get(nm), why) if t is not None else Opaque(why))
+            for nm, t in (spec.template or {}).items():
+                if nm not in names and t[0] in ("dict", "list"):
+                    _tmpl_make(t, tokens, env.get(nm), why)       # containers mutated in place by the body
+            for clause, cond in spec.clauses(i, n):
+                vc.assume(cond)
+            return tuple(out) if len(out) != 1 else out[0]
         if spec.modifies:
             spec.modifies(env)
         if exiting:
@@ -830,6 +976,33 @@ class _LoopRT:
         spec = self.specs[k]
         it, n = self.state[k]
         i = self.state[(k, "i")]
+        if isinstance(spec, RoleLoopSpec):
+            roles = spec.roles()
+            if self.vc.probe:
+                env0 = self.state.get((k, "env0"), {})
+                tmpl = {}
+                for nm, v in env.items():
+                    if nm.startswith("__vc") or nm not in env0:
+                        continue              # loop-carried state is initialised before the loop
+                    t = _tmpl_build(v, roles, self.vc, spec.value_roles, env0.get(nm) != id(v))
+                    if _tmpl_has_role(t):
+                        tmpl[nm] = t
+                spec.template = tmpl
+                raise PathEnd()
+            pre = "%s/loop%d(%s)/invariant-preserved: " % (self.fname, k, spec.name)
+            seen = set()
+            for nm, t in (spec.template or {}).items():
+                for r, v, path in _tmpl_walk(t, env.get(nm, _MISSING), nm):
+                    seen.add(r)
+                    if v is _MISSING:
+                        self.vc.check(pre + "loop-carried %s is still in place" % r, False)
+                    elif r in spec.value_roles:
+                        self.vc.check(pre + "loop-carried %s is the value the contract prescribes" % r, v == roles[r])
+                    else:
+                        self.vc.check(pre + "loop-carried %s is the object the contract prescribes" % r, v is roles[r])
+            for clause, cond in spec.clauses(i + 1, n):
+                self.vc.check(pre + clause, cond)
+            raise PathEnd()
         for clause, cond in spec.invariant(env, i + 1, n):
             self.vc.check("%s/loop%d(%s)/invariant-preserved: %s" % (self.fname, k, spec.name, clause), cond)
         raise PathEnd()
